@@ -316,7 +316,14 @@ func (a Float) M__bool__() (Object, error) {
 }
 
 func (a Float) M__int__() (Object, error) {
-	if a >= IntMin && a <= IntMax {
+	if math.IsNaN(float64(a)) {
+		return nil, ExceptionNewf(ValueError, "cannot convert float NaN to integer")
+	}
+	if math.IsInf(float64(a), 0) {
+		return nil, ExceptionNewf(OverflowError, "cannot convert float infinity to integer")
+	}
+	// NB IntMax isn't representable as a float, -IntMin is
+	if a >= IntMin && a < -IntMin {
 		return Int(a), nil
 	}
 	frac, exp := math.Frexp(float64(a))              // x = frac << exp; 0.5 <= abs(x) < 1
